@@ -805,6 +805,6 @@ static rc::Gen<ArrCase> genArrCase()
 static void register_properties()
 {
   pbt::sweep<AdCase>("array_small", array_small_sweep, array_small_one);
-  pbt::property<ArrCase>("array_history", 10000, genArrCase(), array_history);
+  pbt::property<ArrCase>("array_history", 25000, genArrCase(), array_history);
 }
 PBT_MAIN("C17_array")
